@@ -96,6 +96,17 @@ def evaluate(case):
                 classes.add("argparser_level_option")
             else:
                 ap.get_cmd_parser(cmds[o["target"]]["name"]).add_argument(o["flag"], action="store_true", help=dest_help)
+            if o.get("twin"):
+                # a second switch of the same parser that writes to a destination another option already uses: the
+                # negative form of the flag ("--no-...", same dest) or an alias of the standard verbosity (dest='verbose')
+                tgt = ap if o["target"] < 0 else ap.get_cmd_parser(cmds[o["target"]]["name"])
+                if o["twin"] == "neg":
+                    tgt.add_argument("--no-" + o["flag"][2:], action="store_const", const="no", default=False,
+                                     dest=o["flag"][2:].replace("-", "_"), help="negative form")
+                else:
+                    tgt.add_argument("--loud-" + o["flag"][6:], action="store_const", const=7, default=0, dest="verbose",
+                                     help="very verbose")
+                classes.add("second_option_with_the_same_dest_" + o["twin"])
         if case.get("clash") is not None:
             # an option added to an ancestor shares one option string with a flag a descendant already owns. Refusing it
             # (ArgumentError) is fine; if it is accepted, the new option is an option of that ancestor like any other
@@ -170,6 +181,19 @@ def evaluate(case):
                               f"{cmds[o['target']]['name']}"))
                 elif st_ != "exit" or res != 2:
                     f.append(("rejection_is_not_SystemExit_2", f"[{name}, {o['flag']}] -> {st_} {res!r}"))
+            if o.get("twin"):
+                evals += 1
+                flag2 = ("--no-" + o["flag"][2:]) if o["twin"] == "neg" else ("--loud-" + o["flag"][6:])
+                st2_, res2 = parse([name, flag2])
+                if want:
+                    good = st2_ == "ok" and res2.command == name and (
+                        getattr(res2, dest, None) == "no" if o["twin"] == "neg" else res2.verbose == 7)
+                    if st2_ != "ok":
+                        f.append(("inherited_option_rejected", f"[{name}, {flag2}] -> {st2_} {res2!r}; declared next to {o['flag']}"))
+                    elif not good:
+                        f.append(("option_parsed_wrong", f"[{name}, {flag2}] -> {res2!r}"))
+                elif st2_ == "ok":
+                    f.append(("foreign_option_accepted", f"[{name}, {flag2}] -> {res2!r}"))
         # standard options
         for vec, chk in (([name, "-v"], lambda r: r.verbose == 1), ([name, "-vv"], lambda r: r.verbose == 2),
                          ([name, "--color=never"], lambda r: r.color == "never"),
@@ -228,6 +252,9 @@ def st_case(draw):
     letters = "abcdefghij"
     opts = [{"flag": "--opt-%s%s" % (letters[k], letters[(k * 3 + 1) % 10]),
              "target": draw(st.integers(-1, n - 1))} for k in range(nopt)]
+    for o in opts:
+        if draw(st.integers(0, 3)) == 0:
+            o["twin"] = draw(st.sampled_from(["neg", "neg", "verbose"]))
     opts = draw(st.permutations(opts)) if opts else opts
     words = draw(st.lists(st.sampled_from(["-", "--", "h", "help", "p", "", "x", "el", "file.txt", "cmd", "-h-", "cmd0x", "c1",
                                            # names that other parsers of the same process use for their commands
